@@ -21,6 +21,9 @@ def run(ctx, sess):
     from .common import relay
     from . import c01 as _src_c01
     relay(ctx, sess, _src_c01.run, {'C01.g': 'C03.l'})
+    ctx.rule('C03.u', 'the open can step back from an INDEX without its SUMMARY: payload_prev_length of every appended chunk is the payload length of the chunk before it - last_payload_length is updated by every append and only by appends, an in-place rewrite of a head table leaves it alone (shared with C05.5)')
+    from . import c05 as _src_c05
+    relay(ctx, sess, _src_c05.run, {'C05.5': 'C03.u'}, minimum=3)
     P = sess.prog('default')
     ctx.rule('C03.a', 'last valid chunk: success of the backward scan requires the header-CRC equal edge and a zero result of the checked chunk read of that candidate')
     ctx.rule('C03.b', 'repair sequence: on every path from the not-closed branch to the published instance: truncate, rewrite last chunk, pointer-repair loop, FSR-rebuild loop, END, close, reopen read-only, in this order; loop bodies skip only undefined slots / undefined tracks / non-FSR signals')
